@@ -336,7 +336,8 @@ void arena::free_arena () {
 }
 
 bool arena::has_enqueued_tasks() {
-    return !my_fifo_task_stream.empty();
+    // Resume tasks are advertised like enqueued ones (see r1::resume): the mandatory worker stays while one is pending
+    return !my_fifo_task_stream.empty() || !my_resume_task_stream.empty();
 }
 
 void arena::request_workers(int mandatory_delta, int workers_delta, bool wakeup_threads) {
